@@ -32,11 +32,12 @@ ASSUMPTIONS = [
     "a standard CLEAR_FEATURE that carries an IN data stage (wLength != 0, malformed) need not be stalled at the data-"
     "stage token, only at its status stage (the statement's 'or'); every other unsupported request must be stalled "
     "at its FIRST opportunity",
-    "a further SETUP may arrive at any time, also while the previous request is unfinished (e.g. its status-stage "
-    "ACK was lost); the device must restart on it [USB 2.0 8.5.3]",
+    "a further SETUP may arrive while the previous request is unfinished (e.g. its status-stage ACK was lost); the "
+    "device must restart on it [USB 2.0 8.5.3].  Half-duplex bus: no SETUP while the device transmits (tx.valid) and "
+    "none within 6 cycles of the previous token / stage strobe (a SETUP transaction is >= 14 byte times)",
     "tx.ready free every cycle; active_config symbolic constant",
 ]
-BOUNDS = "BMC from reset, all 8 setup bytes symbolic per request, two consecutive requests; quick K=12, thorough K=18"
+BOUNDS = "BMC from reset, all 8 setup bytes symbolic per request, two consecutive requests (the first possibly left unfinished); quick K=15, thorough K=22"
 OUTSIDE = "requests skiplisted by the application; behaviour after " \
           "the first stall of a request (the statement only asks for the first opportunity)"
 
@@ -99,8 +100,14 @@ class UnsupportedHarness(Harness):
         ack_after = Signal(name="ack_after_status")
         nreq = Signal(2, name="nreq")
         complete = Signal(name="prev_complete")
-        # a SETUP may arrive at any time, also in the middle of an unfinished request [USB 2.0 8.5.3]
-        may_setup = Const(1)
+        # a SETUP may arrive in the middle of an unfinished request [USB 2.0 8.5.3], but the bus is half duplex and a
+        # SETUP transaction takes time: not while the device transmits, and not within GAP cycles of the previous
+        # token / stage strobe (token + DATA0 packet are >= 14 byte times; responses start within 4 cycles)
+        GAP = 6
+        quiet = Signal(3, name="quiet_cycles", init=7)
+        tx_busy = Signal(name="tx_busy_prev")      # registered: tx.valid depends combinationally on the strobes
+        m.d.usb += tx_busy.eq(sh.tx.valid)
+        may_setup = (quiet >= GAP) & ~tx_busy
         setup_now = Signal(name="setup_now")
         m.d.comb += setup_now.eq(self.do_setup & may_setup & ~received)
         m.d.usb += received.eq(setup_now)
@@ -150,6 +157,10 @@ class UnsupportedHarness(Harness):
         ]
         with m.If(status_req):
             m.d.usb += stage_status.eq(1)
+        with m.If(data_req | status_req | new_token | received):
+            m.d.usb += quiet.eq(0)
+        with m.Elif(quiet != 7):
+            m.d.usb += quiet.eq(quiet + 1)
         # when has the host finished a request?  IN data stage: the OUT status stage was answered.  Otherwise: the
         # status-stage IN was stalled, or its ZLP was ACKed while that IN token is still the current token.
         zlp_pending = Signal(name="zlp_pending")
@@ -230,7 +241,7 @@ def queries(tier):
         if quick and tag == "srh_dist":
             continue
         f = (lambda kw=kw: UnsupportedHarness(**kw))
-        qs.append(Query(f"bmc_{tag}", f, 12 if quick else 18, timeout=600,
+        qs.append(Query(f"bmc_{tag}", f, 15 if quick else 22, timeout=600,
                         desc=f"{tag}: all setup bytes symbolic per request, stage strobes / broadcast ACK / tx.ready free, "
                              "two consecutive requests"))
         qs.append(Query(f"cosim_{tag}", f, 0, kind="cosim", cosim_cycles=300 if quick else 1000))
